@@ -557,21 +557,32 @@ func (c *Client) allocateFromPool(ctx context.Context, pool *IPPool, subscriberI
 		return "", fmt.Errorf("pool %s has no usable addresses", pool.ID)
 	}
 
-	// Hash subscriber ID to get deterministic offset
+	// Addresses already assigned to other subscribers of this pool
+	taken := make(map[string]struct{})
+	c.mu.RLock()
+	for id, sub := range c.subscriberCache {
+		if id != subscriberID && sub.IPv4Addr != "" && (sub.IPv4Pool == pool.ID || sub.IPv4Pool == "") {
+			taken[sub.IPv4Addr] = struct{}{}
+		}
+	}
+	c.mu.RUnlock()
+
+	// Hash subscriber ID to get deterministic starting offset, then probe
+	// linearly past addresses another subscriber already holds (two IDs whose
+	// hashes agree modulo the host count must not share an address)
 	hash := hashString(subscriberID)
-	offset := int(hash%uint64(numHosts)) + 1 // +1 to skip network address
+	start := int(hash % uint64(numHosts))
+	base := uint32(baseIP[0])<<24 | uint32(baseIP[1])<<16 | uint32(baseIP[2])<<8 | uint32(baseIP[3])
+	for i := 0; i < numHosts; i++ {
+		offset := (start+i)%numHosts + 1 // +1 to skip network address
+		v := base + uint32(offset)
+		candidate := formatIP([]byte{byte(v >> 24), byte(v >> 16), byte(v >> 8), byte(v)})
+		if _, used := taken[candidate]; !used {
+			return candidate, nil
+		}
+	}
 
-	// Calculate IP
-	ip := make([]byte, 4)
-	copy(ip, baseIP)
-
-	// Add offset to base IP
-	ip[3] += byte(offset & 0xFF)
-	ip[2] += byte((offset >> 8) & 0xFF)
-	ip[1] += byte((offset >> 16) & 0xFF)
-	ip[0] += byte((offset >> 24) & 0xFF)
-
-	return formatIP(ip), nil
+	return "", fmt.Errorf("pool %s exhausted", pool.ID)
 }
 
 // LookupSubscriberIP looks up the pre-allocated IP for a subscriber.
